@@ -13,7 +13,32 @@ use crate::tgen::*;
 use blots_core::verif_hooks;
 use serde_json::{Value as J, json};
 
-fn programs() -> Vec<&'static str> {
+/// Byte-aligned program families: the programs of a family differ only in identifier names of
+/// equal length, so that every lambda, call and literal sits at the same byte range while the
+/// free variables differ (forces collisions in anything keyed by source position).
+fn aligned_programs() -> Vec<String> {
+    let mut v = vec![];
+    for a in ["k", "j"] {
+        for p in ["p", "q"] {
+            for x in [a, p] {
+                v.push(format!("{a} = 10\nmk = {p} => (v) => v + {x}\noutput add = mk(3)\noutput r = add(1)", a = a, p = p, x = x));
+                v.push(format!("{a} = 10\noutput f = {p} => do {{\n  t = [{x}]\n  return (w => [w, t, {x}])\n}}\noutput r = f(2)(3)", a = a, p = p, x = x));
+            }
+        }
+    }
+    for (n1, n2) in [("aa", "bb"), ("bb", "aa"), ("aa", "aa")] {
+        v.push(format!("aa = 1\nbb = 2\noutput g = (x) => [x, {}, {}]\noutput r = g(0)", n1, n2));
+    }
+    v
+}
+
+fn programs() -> Vec<String> {
+    let mut v: Vec<String> = base_programs().into_iter().map(|s| s.to_string()).collect();
+    v.extend(aligned_programs());
+    v
+}
+
+fn base_programs() -> Vec<&'static str> {
     vec![
         "output x = 1 + 2",
         "a = 1\nb = 2\nc = 3\nd = 4\noutput f = x => a + b + c + d + x\noutput y = f(1)",
@@ -304,6 +329,25 @@ pub fn run(ctx: &Ctx, replay: Option<&J>) -> i32 {
     let progs = programs();
     if let Some(r) = replay {
         let c = &r["case"];
+        if let Some(pi) = c["program_index"].as_u64() {
+            let h: Vec<usize> = c["history"].as_array().map(|a| a.iter().map(|x| x.as_u64().unwrap_or(0) as usize).collect()).unwrap_or_default();
+            let p = progs[pi as usize].clone();
+            let alone = in_fresh_process(|| observe(&p)).unwrap_or_default();
+            let progs2 = progs.clone();
+            let after = in_fresh_process(move || {
+                for i in &h {
+                    let _ = observe(&progs2[*i]);
+                }
+                observe(&progs2[pi as usize])
+            })
+            .unwrap_or_default();
+            println!("program:\n{}\nalone (fresh process): {}\nafter history {}: {}", p, alone, c["history"], after);
+            if alone != after {
+                println!("VIOLATION property=C02 replay=<replayed>");
+                return 1;
+            }
+            return 0;
+        }
         if let Some(p) = c["program"].as_str() {
             let script: Vec<usize> = c["script"].as_array().map(|a| a.iter().map(|x| x.as_u64().unwrap_or(0) as usize).collect()).unwrap_or_default();
             let (base, _) = observe_scripted(p, vec![]);
@@ -315,9 +359,15 @@ pub fn run(ctx: &Ctx, replay: Option<&J>) -> i32 {
         return 1;
     }
     let thorough = !ctx.quick();
-    // ---- (i) histories
-    let baseline: Vec<String> = progs.iter().map(|p| observe(p)).collect();
+    // ---- (i) histories. "Fresh" is literal: every baseline and every history runs in its own
+    // forked process, so nothing evaluated earlier (thread-locals, caches, counters) can leak in.
+    let progs_owned = progs.clone();
+    let progs: Vec<&str> = progs_owned.iter().map(|s| s.as_str()).collect();
     let n = progs.len();
+    const SEP: &str = "\u{1}\u{2}\u{1}";
+    // (forks are issued from single-threaded processes only: the main thread here, and the
+    // single-threaded workers of par_for_ctx below)
+    let baseline: Vec<String> = (0..n).map(|i| in_fresh_process(|| observe(progs[i])).unwrap_or_else(|| "<child died>".into())).collect();
     let mut hist: Vec<Vec<usize>> = vec![vec![]];
     for a in 0..n {
         hist.push(vec![a]);
@@ -329,31 +379,44 @@ pub fn run(ctx: &Ctx, replay: Option<&J>) -> i32 {
             }
         }
     }
-    let mut transitions: u64 = 0;
-    let results: Vec<Vec<(usize, String)>> = par_map(&hist, |h| {
-        // same process, same thread: run the history, then every program
-        for i in h {
-            let _ = observe(progs[*i]);
+    // one fresh process per history: run the history, then every program (rotated so that each
+    // program is also the *first* one after the history in some process)
+    par_for_ctx(ctx, hist.len(), |hi| {
+        let h = &hist[hi];
+        let rot = h.iter().sum::<usize>() % n;
+        let order: Vec<usize> = (0..n).map(|k| (k + rot) % n).collect();
+        let text = in_fresh_process(|| {
+            for i in h {
+                let _ = observe(progs[*i]);
+            }
+            order.iter().map(|p| observe(progs[*p])).collect::<Vec<_>>().join(SEP)
+        });
+        let res: Vec<(usize, String)> = match text {
+            Some(t) => order.iter().cloned().zip(t.split(SEP).map(|s| s.to_string())).collect(),
+            None => vec![],
+        };
+        if res.len() != n {
+            ctx.machinery_error(format!("history {:?}: child process died", h));
+            return;
         }
-        (0..n).map(|p| (p, observe(progs[p]))).collect()
-    });
-    for (h, res) in hist.iter().zip(results.iter()) {
-        for (p, got) in res {
-            transitions += 1;
+        let mut seen_before: Vec<usize> = h.clone();
+        for (p, got) in &res {
             ctx.count(1);
             ctx.outcome("history-case");
             if got != &baseline[*p] {
                 ctx.violation(Violation {
                     kind: "history-dependent".into(),
                     class: format!("program{}", p),
-                    input: format!("after programs {:?}: {}", h, progs[*p]),
+                    input: format!("after programs {:?}: {}", seen_before, progs[*p]),
                     expected: baseline[*p].clone(),
                     observed: got.clone(),
-                    case: json!({"history": h, "program": progs[*p], "script": []}),
+                    case: json!({"history": seen_before, "program_index": p}),
                 });
             }
+            seen_before.push(*p);
         }
-    }
+    });
+    let mut transitions: u64 = (hist.len() * n) as u64;
     ctx.nontrivial_many((0..hist.len() as u64).map(|i| fnv(&format!("hist{}", i))));
     // ---- (ii) iteration orders through the H1 seam
     let mut states: u64 = hist.len() as u64;
